@@ -88,7 +88,8 @@ def main():
             p = subprocess.run([os.path.join(ROOT, "check.py"), "C14", "--tier", "quick", "--keep-going"], env=env, capture_output=True, text=True, cwd=ROOT)
             last = [l for l in p.stdout.splitlines() if l.strip()][-1:] or [""]
             try:
-                ev = json.load(open(evp))
+                # a run against another tree (VERIF_REPO) writes its evidence next to the replays
+                ev = json.load(open(os.path.join(ROOT, "replays", "evidence-C14-other-tree.json")))
                 caught = ", ".join(f"{b['batch']} {b['diffs']}" for b in ev["coverage"]["batches"] if b["diffs"])
                 vio = ev.get("violations", [])
                 kinds = sorted({v.get("kind", "?") for v in vio}) if isinstance(vio, list) else [f"violations={vio}"]
